@@ -821,6 +821,10 @@ CLOSURE_ADAPTERS = {
     'core::result::Result::unwrap_or': (True, 'Ok', 'payload', 'arg'),
     'core::option::Option::unwrap_or_else': (False, 'Some', 'payload', 'call0'),
     'core::option::Option::map_or': (False, 'Some', 'call2', 'arg'),
+    'core::result::Result::map_or': (True, 'Ok', 'call2', 'arg'),
+    'core::result::Result::inspect_err': (True, 'Err', 'call-ref-keep', 'same'),
+    'core::result::Result::inspect': (True, 'Ok', 'call-ref-keep', 'same'),
+    'core::option::Option::inspect': (False, 'Some', 'call-ref-keep', 'same'),
     'core::option::Option::is_some_and': (False, 'Some', 'call', 'false'),
     'core::option::Option::is_none_or': (False, 'Some', 'call', 'true'),
 }
@@ -892,7 +896,7 @@ def expand_closure_adapters(P, D):
             continue
         nargs = len(t['args'])
         clos = None
-        if hit_do in ('call', 'call-wrap'):
+        if hit_do in ('call', 'call-wrap', 'call-ref-keep'):
             if nargs != 2 or not _closure_literal(D, t['args'][1]):
                 continue
             clos = t['args'][1]
@@ -922,7 +926,15 @@ def expand_closure_adapters(P, D):
         new_blocks = []
         # ---- the processed variant
         hit_stmts = [_assign({'l': p_, 'p': []}, _use({'k': 'move', 'pl': {'l': xl, 'p': ['downcast:%d:%s' % (idx[hit], hit), 'field:0:0']}}), line)]
-        if hit_do == 'payload':
+        if hit_do == 'call-ref-keep':
+            # inspect / inspect_err: the callback sees a reference to the payload, the value itself is handed on untouched
+            hit_stmts = [_assign({'l': p_, 'p': []}, {'r': 'ref', 'mut': False, 'pl': {'l': xl, 'p': ['downcast:%d:%s' % (idx[hit], hit), 'field:0:0']}}, line),
+                         _assign({'l': tup_, 'p': []}, {'r': 'agg', 'tuple': True, 'a': [{'k': 'move', 'pl': {'l': p_, 'p': []}}]}, line)]
+            new_blocks.append({'cleanup': False, 'inl': 'adapter', 'stmts': hit_stmts,
+                               'term': {'t': 'call', 'callee': FNONCE, 'trait': 'core::ops::function::FnOnce', 'args': [clos, {'k': 'move', 'pl': {'l': tup_, 'p': []}}],
+                                        'dest': {'l': unit_, 'p': []}, 'succ': [nb + 1], 'span': span, 'gargs': ''}})
+            new_blocks.append({'cleanup': False, 'inl': 'adapter', 'stmts': [_assign(dest, _use({'k': 'move', 'pl': {'l': xl, 'p': []}}), line)], 'term': {'t': 'goto', 'succ': [join]}})
+        elif hit_do == 'payload':
             hit_stmts.append(_assign(dest, _use({'k': 'move', 'pl': {'l': p_, 'p': []}}), line))
             hit_blk = {'cleanup': False, 'inl': 'adapter', 'stmts': hit_stmts, 'term': {'t': 'goto', 'succ': [join]}}
             new_blocks.append(hit_blk)
@@ -960,6 +972,8 @@ def expand_closure_adapters(P, D):
                 st = [_assign({'l': e_, 'p': []}, _use({'k': 'move', 'pl': {'l': xl, 'p': ['downcast:%d:%s' % (idx[other], other), 'field:0:0']}}), line),
                       _assign(dest, {'r': 'agg', 'adt': outer, 'variant': other, 'fields': ['0'], 'a': [{'k': 'move', 'pl': {'l': e_, 'p': []}}]}, line)]
             new_blocks.append({'cleanup': False, 'inl': 'adapter', 'stmts': st, 'term': {'t': 'goto', 'succ': [join]}})
+        elif other_do == 'same':
+            other_idx = nb + 1        # the block that hands the value on after the callback: one definition of the result
         elif other_do == 'arg':
             dflt = _use(t['args'][1])
             sunk = _sink_pure_default(D, t['args'][1])
@@ -987,6 +1001,130 @@ def expand_closure_adapters(P, D):
             thread_returns(D, lo, hi, dl, (dl, ()), join)
         except Exception:
             pass
+    if n:
+        D['adapters'] = D.get('adapters', 0) + n
+    return n
+
+
+LOOP_ADAPTERS = ('core::iter::traits::iterator::Iterator::try_for_each', 'core::iter::traits::iterator::Iterator::for_each')
+
+
+def _opaque_iter_type(P, D, l):
+    """the concrete type behind an `impl Iterator` value produced by a function of this crate (read off that function's
+    body: the type it builds and returns)"""
+    import q
+    for _ in range(4):
+        src = None
+        for b in D['blocks']:
+            t = b['term']
+            if t['t'] == 'call' and t['dest']['l'] == l and not t['dest']['p']:
+                src = ('call', t)
+            for s_ in b['stmts']:
+                if s_['s'] == 'assign' and s_['pl']['l'] == l and not s_['pl']['p'] and s_['rv']['r'] == 'use' and s_['rv']['a'][0].get('k') in ('copy', 'move') and not s_['rv']['a'][0]['pl']['p']:
+                    src = ('use', s_['rv']['a'][0]['pl']['l'])
+                if s_['s'] == 'assign' and s_['pl']['l'] == l and not s_['pl']['p'] and s_['rv']['r'] == 'ref' and not s_['rv']['pl']['p']:
+                    src = ('use', s_['rv']['pl']['l'])        # `(&mut it).try_for_each(..)`
+        if src is None:
+            return None
+        if src[0] == 'use':
+            l = src[1]
+            continue
+        t = src[1]
+        cal = norm(t.get('resolved') or t.get('callee') or '')
+        if cal.endswith('IntoIterator::into_iter') and t['args'] and t['args'][0].get('k') in ('copy', 'move') and not t['args'][0]['pl']['p']:
+            l = t['args'][0]['pl']['l']
+            continue
+        hb = P.get(cal)
+        if hb is None or hb.crate not in CRATES:
+            return None
+        tys = set()
+        for x in q.exits(hb):
+            if x['kind'] == 'agg':
+                tys.add(norm(x['adt']))
+            elif x['kind'] == 'call':
+                inner = P.get(x['cs'].callee or '')
+                so = norm(inner.sig_out) if inner is not None and inner.sig_out else None
+                tys.add(so)
+            else:
+                tys.add(None)
+        if len(tys) == 1 and None not in tys:
+            return tys.pop()
+        return None
+    return None
+
+
+def expand_loop_adapters(P, D):
+    """`iter.try_for_each(|x| ..)` / `iter.for_each(|x| ..)` with a closure literal: written out as the loop they stand for
+    (`loop { match iter.next() { Some(x) => f(x)?, None => break } }`), so that an adapter and the `for` loop it replaces
+    read the same.  Returns the number rewritten."""
+    n = 0
+    FNMUT = 'core::ops::function::FnMut::call_mut'
+    NEXT = 'core::iter::traits::iterator::Iterator::next'
+    for bi in range(len(D['blocks'])):
+        b = D['blocks'][bi]
+        t = b['term']
+        if b['cleanup'] or t['t'] != 'call' or norm(t.get('callee', '')) not in LOOP_ADAPTERS or len(t['args']) != 2 or t['dest']['p']:
+            continue
+        it, clos = t['args']
+        if it.get('k') not in ('copy', 'move') or it['pl']['p'] or not _closure_literal(D, clos) or clos.get('k') == 'const':
+            continue
+        succ = [s_ for s_ in t.get('succ', []) if s_ != '']
+        if len(succ) != 1:
+            continue
+        is_try = norm(t['callee']).endswith('try_for_each')
+        join = int(succ[0])
+        line = t.get('span', {}).get('line')
+        span = t.get('span', {})
+        L = len(D['locals'])
+        ity = D['locals'][it['pl']['l']] if it['pl']['l'] < len(D['locals']) else '?'
+        D['locals'] = list(D['locals']) + ['&mut ' + str(ity), 'core::option::Option<?>', 'isize', '?', '(?,)', '?', 'isize', '&mut ?']
+        ref_, nx_, d_, p_, tup_, r_, d2_, cref_ = range(L, L + 8)
+        nb = len(D['blocks'])
+        head, some_b, none_b, after_b, brk_b, dead = nb, nb + 1, nb + 2, nb + 3, nb + 4, nb + 5
+        dest = dict(t['dest'])
+        gargs = t.get('gargs', '')
+        blocks = [
+            # head: next(&mut iter)
+            {'cleanup': False, 'inl': 'adapter', 'stmts': [_assign({'l': ref_, 'p': []}, {'r': 'ref', 'mut': True, 'pl': {'l': it['pl']['l'], 'p': []}}, line)],
+             'term': {'t': 'call', 'callee': NEXT, 'trait': 'core::iter::traits::iterator::Iterator', 'args': [{'k': 'move', 'pl': {'l': ref_, 'p': []}}],
+                      'dest': {'l': nx_, 'p': []}, 'succ': [nb + 6], 'span': span, 'gargs': gargs}},
+            # some: r = f(x)
+            {'cleanup': False, 'inl': 'adapter', 'stmts': [
+                _assign({'l': p_, 'p': []}, _use({'k': 'move', 'pl': {'l': nx_, 'p': ['downcast:1:Some', 'field:0:0']}}), line),
+                _assign({'l': tup_, 'p': []}, {'r': 'agg', 'tuple': True, 'a': [{'k': 'move', 'pl': {'l': p_, 'p': []}}]}, line),
+                _assign({'l': cref_, 'p': []}, {'r': 'ref', 'mut': True, 'pl': {'l': clos['pl']['l'], 'p': []}}, line)],
+             'term': {'t': 'call', 'callee': FNMUT, 'trait': 'core::ops::function::FnMut', 'args': [{'k': 'move', 'pl': {'l': cref_, 'p': []}}, {'k': 'move', 'pl': {'l': tup_, 'p': []}}],
+                      'dest': {'l': r_, 'p': []}, 'succ': [after_b], 'span': span, 'gargs': ''}},
+            # none: the iteration is over
+            {'cleanup': False, 'inl': 'adapter', 'stmts': [_assign(dest, {'r': 'agg', 'adt': 'core::result::Result', 'variant': 'Ok', 'fields': ['0'], 'a': [{'k': 'const', 'ty': '()', 'val': '()', 'repr': 'const ()'}]} if is_try
+                                                               else _use({'k': 'const', 'ty': '()', 'val': '()', 'repr': 'const ()'}), line)],
+             'term': {'t': 'goto', 'succ': [join]}},
+            # after the callback
+            ({'cleanup': False, 'inl': 'adapter', 'stmts': [_assign({'l': d2_, 'p': []}, {'r': 'discr', 'pl': {'l': r_, 'p': []}, 'of': RESULT_OF}, line)],
+              'term': {'t': 'switch', 'discr': {'k': 'move', 'pl': {'l': d2_, 'p': []}}, 'dty': 'isize', 'vals': [['0', head], ['1', brk_b]], 'otherwise': dead, 'span': span}} if is_try
+             else {'cleanup': False, 'inl': 'adapter', 'stmts': [], 'term': {'t': 'goto', 'succ': [head]}}),
+            # break: the callback failed, its error is the result
+            {'cleanup': False, 'inl': 'adapter', 'stmts': [_assign(dest, _use({'k': 'move', 'pl': {'l': r_, 'p': []}}), line)], 'term': {'t': 'goto', 'succ': [join]}},
+            {'cleanup': False, 'inl': 'adapter', 'stmts': [], 'term': {'t': 'unreachable'}},
+            # switch on next()
+            {'cleanup': False, 'inl': 'adapter', 'stmts': [_assign({'l': d_, 'p': []}, {'r': 'discr', 'pl': {'l': nx_, 'p': []}, 'of': OPTION_OF}, line)],
+             'term': {'t': 'switch', 'discr': {'k': 'move', 'pl': {'l': d_, 'p': []}}, 'dty': 'isize', 'vals': [['1', some_b], ['0', none_b]], 'otherwise': dead, 'span': span}},
+        ]
+        ga = _split_gargs(gargs) or []
+        ity_ = norm(ga[0]) if ga else None
+        if ity_ is None or 'Opaque' in ity_ or 'Alias' in ity_:
+            ity_ = _opaque_iter_type(P, D, it['pl']['l'])       # `fn iter(self) -> impl Iterator` of this crate
+        if ity_:
+            blocks[0]['term']['gargs'] = '[' + ity_ + ']'
+            try:
+                ib = P.find_impl('core::iter::traits::iterator::Iterator', ity_, 'next')
+                if ib is not None:
+                    blocks[0]['term']['resolved'] = ib.raw
+            except Exception:
+                pass
+        D['blocks'].extend(blocks)
+        b['term'] = {'t': 'goto', 'succ': [head]}
+        n += 1
     if n:
         D['adapters'] = D.get('adapters', 0) + n
     return n
@@ -1060,9 +1198,24 @@ class Inliner:
                 m = re.search(r'\{([^{}]*)\}$', f.extra.get('ty', ''))
                 if self.P.get(norm(tgt)) is None and m:
                     tgt = m.group(1)       # trait method named through its impl: `{<T as Trait>::method}`
+                    if self.P.get(norm(tgt)) is None:
+                        # ... of a generic impl (`impl<T> From<TrySendError<T>> for E`): found by self type and head of the argument type
+                        mm = re.match(r'^<(.+?) as ([\w:]+)<(.+)>>::(\w+)$', norm(tgt))
+                        if mm:
+                            head = mm.group(3).split('<')[0]
+                            hits = [b_ for b_ in self.P.all_bodies() if b_.kind == 'AssocFn' and norm(b_.trait or '') == mm.group(2) and norm(b_.self_ty or '') == mm.group(1)
+                                    and b_.path.rsplit('::', 1)[-1] == mm.group(4) and b_.sig_in and norm(b_.sig_in[0]).split('<')[0] == head]
+                            if len(hits) == 1:
+                                tgt = hits[0].path
             elif f.kind == 'agg' and isinstance(f.extra, dict) and 'closure' in f.extra and not f.proj:
                 tgt = f.extra['closure']
                 env = cs.args[0]
+            elif f.kind == 'place' and not f.proj and f.local is not None and cs.declared != FN_TRAITS[0]:
+                # called through a reference to a closure literal held in a local (FnMut / Fn: `(&mut f)(x)`)
+                d_ = B.single_def(f.local)
+                if d_ is not None and d_[0] == 'assign' and d_[2]['rv']['r'] == 'agg' and 'closure' in d_[2]['rv']:
+                    tgt = d_[2]['rv']['closure']
+                    env = cs.args[0]
             if tgt is None or self.P.get(norm(tgt)) is None:
                 continue
             tup = q.sem(B, cs.args[1])
@@ -1074,6 +1227,7 @@ class Inliner:
             t.pop('trait', None)
             t['args'] = ([env] if env is not None else []) + list(tup.extra['a'])
             t['devirt'] = True
+            D['devirtualised'] = D.get('devirtualised', 0) + 1
             ch = True
         return ch
 
@@ -1170,7 +1324,7 @@ def from_impl_for_into(P, gargs, trait='From'):
 def unnamed_callers_possible(P, hb, leaving=()):
     """could a `From::from` impl still be reached through a call that does not name it (an `.into()` / `?` conversion /
     generic call that was not resolved and inlined)?"""
-    m = re.match(r'^<(.+) as core::convert::From<(.+)>>::from$', hb.path)
+    m = re.match(r'^<(.+) as core::convert::(?:Try)?From<(.+)>>::(?:try_)?from$', hb.path)
     if not m:
         return True
     tgt_ty, src_ty = m.group(1), m.group(2)
@@ -1179,7 +1333,7 @@ def unnamed_callers_possible(P, hb, leaving=()):
             continue
         for cs in b.calls():
             d = cs.declared or ''
-            if d not in ('core::convert::Into::into', 'core::convert::From::from', 'core::ops::try_trait::FromResidual::from_residual', 'core::convert::TryInto::try_into') and not (cs.t.get('trait') and '/#' in (cs.gargs or '')):
+            if d not in ('core::convert::Into::into', 'core::convert::From::from', 'core::ops::try_trait::FromResidual::from_residual', 'core::convert::TryInto::try_into', 'core::convert::TryFrom::try_from') and not (cs.t.get('trait') and '/#' in (cs.gargs or '')):
                 continue
             g = cs.gargs or ''
             if tgt_ty.split('<')[0] in g and (src_ty.split('<')[0] in g or '/#' in g):
@@ -1245,6 +1399,18 @@ def relocate_moved(P, known):
                     scored = sorted(((len(old_c & callees_of(u)) / max(1, len(old_c | callees_of(u))), u) for u in same_new), reverse=True)
                     if scored[0][0] >= 0.5 and scored[0][0] >= 1.5 * scored[1][0]:
                         alias[scored[0][1]] = k
+    # a method that moved to another type of the same module, keeping its name (`RtuParser::length_mode(&self, fc)` ->
+    # `ParserType::length_mode(self, fc)`): the old path is gone and exactly one new function of the crate has that leaf name,
+    # the same number of parameters and lives in the same file
+    if sigs:
+        for k in [k for k in known if k not in present and k not in alias.values() and k in sigs and '<' not in k]:
+            leaf = k.rsplit('::', 1)[-1]
+            mod_ = k.rsplit('::', 2)[0]
+            cands = [u for u, b_ in present.items() if u not in known and u not in alias and u.rsplit('::', 1)[-1] == leaf and u.rsplit('::', 2)[0] == mod_
+                     and b_.kind == sigs[k][0] and bool(b_.is_async) == bool(sigs[k][1]) and len(b_.sig_in or []) == len(sigs[k][2]) and norm(b_.sig_out or '') == norm(sigs[k][3] or '')]
+            others = [k2 for k2 in known if k2 not in present and k2 != k and k2.rsplit('::', 1)[-1] == leaf and k2.rsplit('::', 2)[0] == mod_]
+            if len(cands) == 1 and not others:
+                alias[cands[0]] = k
     # a function whose parameters were bundled into a struct and that became a method of it (`run_session(a, b, c)` ->
     # `Session{a, b, c}.run()`): same module, same asyncness, and it still calls what the old one called
     P.bundled = getattr(P, 'bundled', {})
@@ -1432,6 +1598,13 @@ def apply(P, known=None):
                     nb.prog = P
                     bs[i] = nb
                     b = nb
+            if any(bl['term']['t'] == 'call' and norm(bl['term'].get('callee', '')) in LOOP_ADAPTERS for bl in b.blocks):
+                D = copy.deepcopy(b.d)
+                if expand_loop_adapters(P, D):
+                    nb = Body(D, b.crate)
+                    nb.prog = P
+                    bs[i] = nb
+                    b = nb
             if any(bl['term']['t'] == 'call' and norm(bl['term'].get('callee', '')) in CLOSURE_ADAPTERS for bl in b.blocks) and (ALWAYS_EXPAND or changed_.get(re.sub(r'(::\{closure#\d+\})+$', '', b.path), True)):
                 D = copy.deepcopy(b.d)
                 if expand_closure_adapters(P, D):
@@ -1451,10 +1624,10 @@ def apply(P, known=None):
         return inl
     for path, b in todo:
         D = inl.inl(path)
-        if D.get('inlined'):
+        if D.get('inlined') or D.get('devirtualised'):
             nb = Body(D, b.crate)
             nb.prog = P
-            nb.inlined = D['inlined']
+            nb.inlined = D.get('inlined', [])
             P.bodies[path] = [nb if x is b else x for x in P.bodies[path]]
     # remove helpers that no longer have a caller (all their call sites were inlined)
     def owner(path):
@@ -1498,7 +1671,7 @@ def apply(P, known=None):
             # dispatch): it stays in the program even if every direct call was inlined - unless it is a From conversion
             # and no conversion between its two types is left anywhere in the crate (`.into()` calls are resolved above)
             leaving = {x for x in inl.inlined_fns if x not in still and not (P.get(x) is not None and P.get(x).trait)}
-            if not (norm(hb.trait) == 'core::convert::From' and not unnamed_callers_possible(P, hb, leaving)):
+            if not (norm(hb.trait) in ('core::convert::From', 'core::convert::TryFrom') and not unnamed_callers_possible(P, hb, leaving)):
                 continue
         for p in list(P.bodies):
             if p == h or (hb is not None and hb.is_async and p == h + '::{closure#0}'):
@@ -1507,6 +1680,16 @@ def apply(P, known=None):
                 P.bodies[p] = [x for x in P.bodies[p] if x.is_promoted]
                 if not P.bodies[p]:
                     del P.bodies[p]
+    # closure literals that were written into their only use (callbacks of adapters that were written out, closures handed
+    # to an inlined generic helper): the copy in the caller is the code now, the stand-alone body is dead
+    for p in sorted(inl.inlined_fns):
+        if p in inl.kept or not re.search(r'\{closure#\d+\}$', p) or p not in P.bodies:
+            continue
+        if any(b_.kind == 'Closure' for b_ in P.bodies[p]):
+            inl.removed.append(p)
+            P.bodies[p] = [x for x in P.bodies[p] if x.is_promoted]
+            if not P.bodies[p]:
+                del P.bodies[p]
     return inl
 
 
